@@ -46,6 +46,7 @@ TRUSTED_EXTRA = ["Model/ClientTree.lean's srv* functions restate Model/Session.l
 SIG_F5_WI = "C09:upload-dir:children-under-cwd/dest.name:write_into-dest-with-parents"
 SIG_F5_NOWI = "C09:upload-dir:children-under-cwd/source.name:no-write_into-nonempty-dest"
 
+AWKWARD_NAMES = ["notes; draft.txt", "a;b", "type=dir; x", "-archive", "-la", "-R old", "x -> y", "q\"uote", "sp  ace", "é ü", "[p]riv*?", "1 Jan  1 00:00 z"]
 DESTS = ["", "d", "d1/d2", "/abs/q"]
 EXTRA_DESTS = [".", "d/", "w2/d", "/w/q", "/q", "a", "d1/d2/d3", "/"]
 BLOCKS = [1, 3, 8192]
@@ -659,6 +660,19 @@ def gen_scenarios(ctx, search=False):
                              {"op": "other-session-remove", "path": top}, dict(up), {"op": "list", "path": "", "recursive": True}]
                 scs.append(sc)
                 n += 1
+    # (6) names that are awkward for the line formats but perfectly legal (C08's alphabet, without leading/trailing
+    #     whitespace): as a file, as a directory with children, and as the TOP name addressed relative to the working
+    #     directory - on the MLSD server and on the LIST-only server
+    for j, nm in enumerate(AWKWARD_NAMES):
+        inner = ("D", {nm: ("F", b"in " + nm.encode("utf-8")), "plain": ("D", {nm: ("D", {"deep": ("F", b"d")})}), "e": ("D", {})})
+        top = ("D", {"x": ("F", b"x"), "sub": ("D", {"y": ("F", b"y")}), "e": ("D", {})})
+        for k, (node, src_name, rem_name) in enumerate(((inner, "foo", "t2"), (top, nm, nm))):
+            for m in (True, False):
+                for wi in (True, False):
+                    v = n
+                    scs.append(make_scenario(node, node, ["", "d"][(j + k) % 2] if wi else "", wi, "/", m, BLOCKS[n % 3], "", bool(k), src_name=src_name,
+                                             rem_name=rem_name, abs_source=True, variant=v - v % 10))  # variant % 2 == 0: relative remote source
+                    n += 1
     # destination collisions that must merge / not collide: dest 'd' while the source contains 'd', etc. are in FIXED
     if not search:
         scs += malformed_scenarios()
